@@ -257,6 +257,26 @@ int main(int argc, char** argv) {
             ep->init(Http::Endpoint::options().threads(workers).flags(Tcp::Options::ReuseAddr));
             ep->setHandler(Rest::Router::handler(router)); ep->serveThreaded();
             int port = ep->getPort(); uint64_t seed = r.next();
+            // connection burst while every worker is away: 3 slow requests per worker keep the workers in their handlers for 400 ms; meanwhile
+            // 24 connections per worker are opened at once (they pile up in the workers' queues of new peers); afterwards every one of them
+            // sends one tagged request and has to get its own answer
+            {
+                g_slow_ms = 400;
+                std::vector<std::unique_ptr<lv::Conn>> slow, burst; std::vector<std::string> sbuf;
+                for (int k = 0; k < 3 * workers; k++) { slow.emplace_back(new lv::Conn()); if (slow.back()->open_to(port)) slow.back()->send_all("GET /slow/s" + std::to_string(k) + " HTTP/1.1\r\nHost: x\r\n\r\n"); }
+                lv::msleep(60);
+                for (int k = 0; k < 24 * workers; k++) { burst.emplace_back(new lv::Conn()); if (!burst.back()->open_to(port)) burst.pop_back(); }
+                for (auto& c : slow) { std::string b; lv::read_response(*c, b, 0, (int)(5000 * lv::load_factor())); }
+                g_slow_ms = 2;
+                for (size_t k = 0; k < burst.size(); k++) burst[k]->send_all("GET /a/burst" + std::to_string(k) + " HTTP/1.1\r\nHost: x\r\n\r\n");
+                long unanswered = 0, wrong = 0; std::string firstBad;
+                for (size_t k = 0; k < burst.size(); k++) { std::string b; lv::HttpMsg m = lv::read_response(*burst[k], b, 0, (int)(4000 * lv::load_factor()));
+                    if (!m.complete) { unanswered++; if (firstBad.empty()) firstBad = "connection " + std::to_string(k) + " of the burst: no answer"; }
+                    else if (m.status != 200 || m.body != tag_of("GET", "/a/burst" + std::to_string(k), "")) { wrong++; if (firstBad.empty()) firstBad = "connection " + std::to_string(k) + ": status " + std::to_string(m.status) + " body '" + m.body.substr(0, 40) + "'"; } }
+                count("burst_connections", (long)burst.size());
+                if (unanswered) viol("c09:burst-connection-not-served", cfg + ": " + std::to_string(unanswered) + " of " + std::to_string(burst.size()) + " connections opened while every worker was in a handler were never answered (" + firstBad + ")", Json().str("config", cfg).num("unanswered", unanswered).num("burst", (long long)burst.size()).done());
+                else if (wrong) viol("c09:wrong-response:burst", cfg + ": " + firstBad, Json().str("config", cfg).done());
+            }
             std::vector<std::thread> th; std::vector<ClientStats> cs((size_t)churners);
             for (int k = 0; k < churners; k++) th.emplace_back([&, k] { churn_loop(port, 100 + k, nconn, seed * 977 + (uint64_t)k, false, cs[(size_t)k], cfg); });
             for (auto& t : th) t.join();
